@@ -153,9 +153,11 @@ def run(replay=None):
     for j, r in zip(db_jobs, dres):
         if r.get('error'):
             raise MachineryError('database driver: %s' % r['error'])
-    for j, r in zip(wallet_jobs, wres):
-        if r.get('setup_error'):
-            raise MachineryError('wallet driver could not create wallet %s: %s' % (r['wkind'], r['setup_error']))
+    # a wallet that cannot be set up is skipped; the run is inconclusive (machinery failure) unless violations are found
+    setup_errors = ['%s: %s' % ('/'.join(r['wkind']), r['setup_error']) for r in wres if r.get('setup_error')]
+    keep = [i for i, r in enumerate(wres) if not r.get('setup_error')]
+    wallet_jobs = [wallet_jobs[i] for i in keep]
+    wres = [wres[i] for i in keep]
 
     # ---- judge ------------------------------------------------------------------------------------------------------
     recs = [r['rec'] for r in kres] + [r['rec'] for r in wres] + [r['rec'] for r in dres]
@@ -206,7 +208,10 @@ def run(replay=None):
         report(v, text, {'kind': 'db', 'seed': job[0], 'mode': job[1]})
 
     # ---- vacuity control --------------------------------------------------------------------------------------------
-    if not replay:
+    if setup_errors and not ck.violations:
+        raise MachineryError('wallet driver could not create %d wallets: %s' % (len(setup_errors), setup_errors[:3]))
+    ck.notes['wallets_skipped_setup_failed'] = setup_errors[:5]
+    if not replay and not ck.violations:
         if not {'raw', 'xprv'} <= control_found:
             raise MachineryError('control run without field encryption: the scanner did not find the stored keys (%s)' % sorted(control_found))
         never = sorted(k for k, n in performed.items() if n == 0 and k[1] not in ('mainkey_key',))
